@@ -166,11 +166,33 @@ impl Meter {
     }
 }
 
+fn uri_struct(u: &rhymuri::Uri) -> String {
+    let o = |x: Option<&[u8]>| x.map(hex).unwrap_or_else(|| "-".into());
+    let a = match u.authority() {
+        Some(a) => format!(
+            "{},{},{}",
+            o(a.userinfo()),
+            hex(a.host()),
+            a.port().map(|p| p.to_string()).unwrap_or_else(|| "-".into())
+        ),
+        None => "-".into(),
+    };
+    format!(
+        "s={};a={};p={}|{};q={};f={}",
+        o(u.scheme().map(str::as_bytes)),
+        a,
+        u.path().iter().map(|s| hex(s)).collect::<Vec<_>>().join("/"),
+        u.path().len(),
+        o(u.query()),
+        o(u.fragment())
+    )
+}
 fn req_fields(r: &Request) -> String {
     format!(
-        "m={} t={} h={} b={}",
+        "m={} t={} u={} h={} b={}",
         hex(r.method.as_bytes()),
         hex(r.target.to_string().as_bytes()),
+        uri_struct(&r.target),
         headers(&r.headers),
         hex(&r.body)
     )
@@ -395,7 +417,7 @@ fn exec(t: &[&str]) -> String {
                         r.headers.add_header(Header { name: k.as_str().into(), value: v });
                     }
                     r.body = body;
-                    let shown = format!("V t={}", hex(r.target.to_string().as_bytes()));
+                    let shown = format!("V t={} u={}", hex(r.target.to_string().as_bytes()), uri_struct(&r.target));
                     let (g1, bytes) = gen_result(std::panic::catch_unwind(std::panic::AssertUnwindSafe(|| r.generate())));
                     match bytes {
                         None => format!("{} || {}", shown, g1),
